@@ -821,6 +821,21 @@ func (g *gen) shapeSumCount() (*spec, *spec) {
 		b.lmin, b.lmax, b.dmin, b.dmax = g.i64(), g.i64(), g.f64(), g.f64()
 	case 4: // different sum, same count
 		b.i, b.f64 = g.i64(), g.f64()
+		if g.r.Bool() {
+			// neighbouring sums (integer steps beyond 2^53, a few ulps): distinct sums that
+			// collapse when a comparison routes them through a narrower or a floating type
+			base := i64Bases[g.r.Intn(len(i64Bases))]
+			a.i = base + int64(g.r.Intn(4))
+			for b.i = a.i; b.i == a.i; {
+				b.i = base + int64(g.r.Intn(4))
+			}
+			fb := f64Bases[g.r.Intn(len(f64Bases))]
+			a.f64 = fb
+			b.f64 = fb
+			for k := 1 + g.r.Intn(3); k > 0; k-- {
+				b.f64 = math.Nextafter(b.f64, math.Inf(1))
+			}
+		}
 	default:
 		b = g.leaf(code)
 	}
